@@ -92,7 +92,11 @@ func TestC03(t *testing.T) {
 func runC03Case(run *runner, idx int64, cc *checkCase) string {
 	verdict := "ok"
 	strict := idx%4 == 3 && cfgIsOPLRenderable(cc.Cfg)
-	opts := EnvOpts{MaxDepth: 8, MaxWidth: 100}
+	opts := EnvOpts{MaxDepth: 8, MaxWidth: 100, Extra: map[string]any{"limit.max_batch_check_size": 64}}
+	if idx%3 == 1 {
+		// entries of a batch are then checked one after the other, in request order
+		opts.Extra["limit.batch_check_max_parallelization"] = 1
+	}
 	modeName := "ast-default"
 	if strict {
 		text := (&renderStyle{FullParens: true}).render(cc.Cfg)
@@ -215,19 +219,51 @@ func runC03Batch(run *runner, idx int64, cc *checkCase, env *Env, st *instrStore
 	h := check.NewHandler(deps)
 	rr := &x.ReadRouter{Router: httprouter.New()}
 	h.RegisterReadRoutes(rr)
-	body, _ := json.Marshal(map[string]any{"tuples": cc.queries})
+	// every query twice (and once more at the end in reverse order): entries of one
+	// batch that need the SAME storage lookups, of which only the first meets the fault
+	batch := append(append([]*Tup(nil), cc.queries...), cc.queries...)
+	for i := len(cc.queries) - 1; i >= 0 && len(batch) < 60; i-- {
+		batch = append(batch, cc.queries[i])
+	}
+	if len(batch) > 60 {
+		batch = batch[:60]
+	}
+	body, _ := json.Marshal(map[string]any{"tuples": batch})
 	var protoTuples []*rts.RelationTuple
-	for _, q := range cc.queries {
+	for _, q := range batch {
 		protoTuples = append(protoTuples, q.ToProto())
 	}
-	// fault-free batch: number of calls
-	st.reset(nil)
-	code, _, pt := httpDo(rr, http.MethodPost, check.BatchRoute, string(body), nil)
-	if pt != "" || code != 200 {
-		run.count("batch_faultfree_not_200", 1)
-		return
+	type entry struct {
+		Allowed bool   `json:"allowed"`
+		Error   string `json:"error"`
 	}
-	N := st.calls()
+	// fault-free batch (three runs): number of calls, and per entry whether it was
+	// ever answered allowed / ever answered with an error
+	everAllowed := make([]bool, len(batch))
+	everError := make([]bool, len(batch))
+	var N int64
+	for rep := 0; rep < 3; rep++ {
+		st.reset(nil)
+		code, respBody, pt := httpDo(rr, http.MethodPost, check.BatchRoute, string(body), nil)
+		if pt != "" || code != 200 {
+			run.count("batch_faultfree_not_200", 1)
+			return
+		}
+		var resp struct {
+			Results []entry `json:"results"`
+		}
+		if err := json.Unmarshal([]byte(respBody), &resp); err != nil || len(resp.Results) != len(batch) {
+			run.count("batch_faultfree_undecodable", 1)
+			return
+		}
+		for i, e := range resp.Results {
+			everAllowed[i] = everAllowed[i] || e.Allowed
+			everError[i] = everError[i] || e.Error != ""
+		}
+		if n := st.calls(); n > N {
+			N = n
+		}
+	}
 	if N > int64(run.p.pick(30, 60)) {
 		N = int64(run.p.pick(30, 60))
 	}
@@ -235,10 +271,6 @@ func runC03Batch(run *runner, idx int64, cc *checkCase, env *Env, st *instrStore
 		fk := faultKinds[int(k+idx)%len(faultKinds)]
 		for _, transport := range []string{"rest", "grpc"} {
 			st.reset(&faultPlan{FailAt: k, Persistent: k%2 == 0, Err: fk.err})
-			type entry struct {
-				Allowed bool   `json:"allowed"`
-				Error   string `json:"error"`
-			}
 			var entries []entry
 			if transport == "rest" {
 				code, respBody, pt := httpDoCtx(env.Ctx, 5*time.Second, rr, http.MethodPost, check.BatchRoute, string(body), nil)
@@ -285,8 +317,14 @@ func runC03Batch(run *runner, idx int64, cc *checkCase, env *Env, st *instrStore
 				}
 				if e.Allowed && e.Error != "" {
 					report("C03:batch-entry-allowed-with-error:"+transport,
-						fmt.Sprintf("%s batch check entry %d (%s) says allowed:true together with error %q (storage call #%d failing)", transport, i, cc.queries[i], e.Error, k),
+						fmt.Sprintf("%s batch check entry %d (%s) says allowed:true together with error %q (storage call #%d failing)", transport, i, batch[i], e.Error, k),
 						fmt.Sprintf("batch/%s/k%d/e%d", transport, k, i), map[string]any{"k": k, "fault": fk.name, "entry": e})
+				}
+				if i < len(batch) && e.Allowed && e.Error == "" && !everAllowed[i] && !everError[i] {
+					run.count("batch_entries_compared_with_fault_free", 1)
+					report("C03:batch-ALLOWED-on-fault:"+transport+":"+exprOpsInCfgShort(cc.Cfg, true),
+						fmt.Sprintf("%s batch check entry %d (%s) is answered allowed:true without an error while storage call #%d of the request fails (%s); the same batch without a fault answers this entry denied (3 runs)", transport, i, batch[i], k, fk.name),
+						fmt.Sprintf("batch/%s/k%d/e%d", transport, k, i), map[string]any{"k": k, "fault": fk.name, "entry_index": i, "entries": len(batch), "ops": st.opKinds()})
 				}
 			}
 		}
